@@ -171,3 +171,13 @@ void vf_omp_set_threads(int n) {
   (void)n;
 #endif
 }
+
+mzd_t *vf_mul_mp(mzd_t *C, mzd_t const *A, mzd_t const *B, int cutoff, int add, int *unsupported) {
+#if __M4RI_HAVE_OPENMP
+  *unsupported = 0;
+  return add ? mzd_addmul_mp(C, A, B, cutoff) : mzd_mul_mp(C, A, B, cutoff);
+#else
+  *unsupported = 1;
+  return NULL;
+#endif
+}
